@@ -37,9 +37,14 @@ Families
                     edge, order symbol = order of the crossing edge, quotient edge order = number of crossing
                     edges) + the flat string that denotes the same molecule; docs / test_layering strings.
   stereo_cases      molecules with E/Z double bonds and labelled stereocentres, every admissible cut set.
+  zero_weight_cases two-level strings with weight 0 on explicit hydrogens / heavy atoms (C02).
+  shared_cases      shared atoms `!` (2-, 3-, 4-fold) with the fine graph and every membership known by construction (C02).
+  layered_reuse_cases / layered_shared_cases   layered strings with a fragment name defined on several levels / with `!`
+                    on two consecutive levels, each with its flat string (C06; the former also C02).
 
 Scope decisions (so that no check demands more than the properties state):
-  * no `!` (shared atoms belong to C10); no order-0 descriptors and no descriptor after a ring digit that has
+  * no `!` outside shared_cases / layered_shared_cases (shared atoms belong to C10; those two families give every pair
+    a label of its own and use no aromatic atoms); no order-0 descriptors and no descriptor after a ring digit that has
     a bond symbol (F3 / F2, property C13); ring-closure bond symbols are written at both ring markers; a bond
     symbol is never written directly behind `|n`; no `))` (F7); `%nn` markers come after the single digits.
   * aromatic atoms only as complete benzene rings or as the documented three-bead benzene.
